@@ -314,6 +314,10 @@ func (n *CandidateNode) CreateReplacement(kind Kind, tag string, value string) *
 func (n *CandidateNode) CopyAsReplacement(replacement *CandidateNode) *CandidateNode {
 	newCopy := replacement.Copy()
 	newCopy.Parent = n.Parent
+	// a replacement of a top level node has no parent to ask: it comes from the same document of the same file
+	newCopy.document = n.document
+	newCopy.filename = n.filename
+	newCopy.fileIndex = n.fileIndex
 
 	if n.IsMapKey {
 		newCopy.Key = n
